@@ -94,7 +94,12 @@ def eng_ctflow(f, sub, prop):
     sub.stats["flagged_fns"] = len(flagged)
 
 
-ENGINES = {"tables": eng_tables, "uxcomp": eng_uxcomp, "ctflow": eng_ctflow}
+def eng_totality(f, sub, prop):
+    from . import totality
+    totality.run_totality(f, sub, prop)
+
+
+ENGINES = {"tables": eng_tables, "uxcomp": eng_uxcomp, "ctflow": eng_ctflow, "totality": eng_totality}
 
 
 # ---- properties --------------------------------------------------------------
@@ -151,7 +156,43 @@ def check_C13(tier):
         extra_cov=dict(configs=cfgs, per_config=stats))
 
 
-CHECKS = {"C02": check_C02, "C04": check_C04, "C13": check_C13}
+TOTALITY_TEXT = {
+    "C19": "C19 clauses decided: (a) every explicit panic construct (panic!/assert!/unreachable!/unimplemented!, unwrap/expect, "
+           "panicking std calls, fixed-vs-variable copy_from_slice) in functions reachable from the decode / verify / ECDH / map / "
+           "hash / vartime-helper entry points is a documented precondition (rustdoc anchor re-checked), structurally impossible, or a "
+           "reviewed table entry; caller-establishes-precondition rule for asserts in private helpers; (b) every index, range, "
+           "copy-length, division and try_from obligation is discharged by constant folding, interval evaluation, loop-range "
+           "reasoning, a dominating length guard, or a requirement met at every call site -- the residue is a frozen per-function "
+           "inventory (tables/site_inventory.json) and only NEW undischarged obligations are reported. NOT decided: arithmetic "
+           "safety of the inventoried sites, loop termination, debug-only overflow checks.",
+    "C10": "Totality clause of C10 only ('the routines always return: they never panic'): the C19 rules scoped to the call trees of "
+           "the *_add_mulgen_vartime combinations and verify_helper_vartime. Equality with the constant-time computation is numeric "
+           "and NOT decided.",
+    "C11": "Totality clause of C11 only ('return for every input scalar, without panicking'): the C19 rules scoped to split_vartime, "
+           "split_mu, split_theta, mul_divr_rounded and the lagrange family. The split contract and termination of the lattice "
+           "reductions are numeric and NOT decided.",
+    "C15": "Reachable-panic discipline for FROST: the C19 rules scoped to every public function of the five frost modules, including "
+           "the caller-establishes rule for the ordering assert in derive_interpolating_value.",
+}
+
+
+def check_totality(prop):
+    def chk(tier):
+        run = Run(prop, tier, level="other")
+        cfgs = configs_for(tier)
+        stats = run_engines(run, ["totality"], cfgs, prop)
+        nsites = sum(s["totality"].get("sites", 0) for s in stats.values())
+        return run.finish(
+            explanation=TOTALITY_TEXT[prop],
+            evaluations=nsites, distinct=run.obligations,
+            rule="one obligation per potentially panicking MIR construct (assert terminator, diverging call, unwrap, "
+                 "range/index call, copy_from_slice, try_from) in the live code of every function in scope",
+            extra_cov=dict(configs=cfgs, per_config=stats))
+    return chk
+
+
+CHECKS = {"C02": check_C02, "C04": check_C04, "C13": check_C13,
+          "C19": check_totality("C19"), "C10": check_totality("C10"), "C11": check_totality("C11")}
 
 
 def main(argv):
